@@ -17,7 +17,7 @@ from ..resolve import resolver
 from ..rules import api, arity, attr, sig, undef
 
 KEEP_LOGGING = True  # the log calls are typed and name-checked like any other call
-TECHNIQUE = "whole-package attribute-existence (R-ATTR), call-signature conformance incl. overrides (R-SIG), third-party API existence (R-API), definite assignment with syntactic path feasibility (R-UNDEF), undefined names (R-NAME), registry/branch-table agreement (R-REG), validation-before-sampling order (R-ORDER); R-NORM"
+TECHNIQUE = "whole-package attribute-existence (R-ATTR), call-signature conformance incl. overrides (R-SIG), third-party API existence (R-API), definite assignment with syntactic path feasibility (R-UNDEF), undefined names (R-NAME), registry/branch-table agreement (R-REG), validation-before-sampling order (R-ORDER); R-NORM; dropped / nulled pickled attributes against their readers (adopted from C12.1)"
 
 # Reviewed possibly-unbound reads: (function, name) -> why the unbound path is infeasible.
 UNDEF_REVIEWED = {
@@ -233,6 +233,24 @@ def run(ctx):
     from . import C20_reg
 
     C20_reg.run(ctx)
+
+    # C20.5 an option that reads state the checkpoint does not carry -----------------------------------------------------
+    # "runs to completion" includes a run that was checkpointed and resumed: an attribute that a __getstate__ drops or
+    # nulls must be rebuilt on the resume path, or be read only under options that exclude the nulling (else the option
+    # works in one go and dies with an AttributeError / TypeError after a resume).  The pickling analysis is C12's; its
+    # dropped / nulled-attribute obligations (C12.1 R-PICKLE on the proposal and flow-model receivers) are adopted here.
+    from ..core import Ctx as _Ctx, Ob as _Ob
+    from . import C12 as _c12
+
+    sub_ = _Ctx("C12", prog, ctx.tier, ctx.seed)
+    _c12.run(sub_)
+    n5_ = 0
+    for o_ in sub_.obs:
+        if o_.clause == "C12.1" and o_.rule == "R-PICKLE" and ("in the pickle" in o_.construct or "dropped by __getstate__" in o_.construct):
+            n5_ += 1
+            ctx.obs.append(_Ob(o_.rule, "C20.5", o_.where, o_.construct, o_.ok, o_.detail, o_.loc))
+    ctx.require(n5_ >= 5, f"only {n5_} dropped / nulled-attribute obligations adopted from C12.1")
+    ctx.floor("C20.5", 5)
     ctx.assumptions.append("user-supplied subclasses and entry-point proposals are outside the analysed program; termination of population loops is not decided")
 
 
@@ -293,7 +311,7 @@ def undefined_names(prog, f):
 
 
 CLAIM = {
-    "text": "Decides the static necessary condition of the option property over the whole package: no code path (in particular none gated by a rarely used option) contains a construct that cannot execute - an attribute nobody defines (2500+ typed reads on self / typed fields / aliases), a keyword or positional the resolved callee or any possible override rejects (700+ resolved calls), a third-party name absent from the pinned numpy/scipy/torch/glasflow (1100+ paths), a local unbound on a syntactically feasible path, an undefined name; every option registry (proposal classes, flows, activations, latent priors, stopping criteria, threshold methods, reparameterisations) agrees with the branch table that consumes it; option validation is reached from the constructor before the loop. The stale INS post-sampling option paths it finds on the pinned tree are recorded as known findings. Constructor definite assignment: over 789 (class, instance attribute) pairs no constructor chain can read an attribute before some path has written it, modulo reads under the same tests as the write (R-INIT; found and repaired: DistanceReparameterisation without boundary inversion). Stopping criteria stay paired with their tolerances (shared with C15.1). Option strings are compared under one normalisation (R-NORM).",
+    "text": "Decides the static necessary condition of the option property over the whole package: no code path (in particular none gated by a rarely used option) contains a construct that cannot execute - an attribute nobody defines (2500+ typed reads on self / typed fields / aliases), a keyword or positional the resolved callee or any possible override rejects (700+ resolved calls), a third-party name absent from the pinned numpy/scipy/torch/glasflow (1100+ paths), a local unbound on a syntactically feasible path, an undefined name; every option registry (proposal classes, flows, activations, latent priors, stopping criteria, threshold methods, reparameterisations) agrees with the branch table that consumes it; option validation is reached from the constructor before the loop. The stale INS post-sampling option paths it finds on the pinned tree are recorded as known findings. Constructor definite assignment: over 789 (class, instance attribute) pairs no constructor chain can read an attribute before some path has written it, modulo reads under the same tests as the write (R-INIT; found and repaired: DistanceReparameterisation without boundary inversion). Stopping criteria stay paired with their tolerances (shared with C15.1). Option strings are compared under one normalisation (R-NORM). Options are also checked across a checkpoint / resume (C20.5): every attribute a __getstate__ drops or nulls is rebuilt on the resume path or read only under options that exclude the nulling, so an option that works in one go cannot die after a resume for lack of state.",
     "note": "Does not decide termination of population loops (depends on acceptance rates), wall-clock bounds or result invariants of completed runs. Receiver types are inferred flow-insensitively plus a frozen table for dynamically chosen classes (sa/tables.py); classes with bases outside the package are undecidable for names they do not define and are skipped; user subclasses and entry points are outside the program.",
 }
 
